@@ -161,18 +161,17 @@ func c06Unit(depth, shard, nshards int) vh.Unit {
 						again := build()
 						twin := build()
 						for _, w := range []*vh.PoolWorld{again, twin} {
-							if kind == "replayed" {
-								warm.Invoke(w, vh.CtxWith(w.Host("x").Service()))
-							}
+							// (the victim's last honoured request: part of both worlds, replayed by the probe)
+							warm.Invoke(w, vh.CtxWith(w.Host("x").Service()))
 							w.Host("attacker-conn")
 						}
 						call.Invoke(again, vh.CtxWith(again.Host("attacker-conn").Service()))
 						var got, want string
-						if p := vh.Recover(func() { got = c06Probe(again, cast, now) }); p != "" {
+						if p := vh.Recover(func() { got = c06Probe(again, cast, now, warm) }); p != "" {
 							u.Violate("c06/"+endpoint+"/panic/after-refusal", desc+": later request panicked: "+p, nil)
 							continue
 						}
-						vh.Recover(func() { want = c06Probe(twin, cast, now) })
+						vh.Recover(func() { want = c06Probe(twin, cast, now, warm) })
 						if got != want {
 							u.Violate("c06/"+endpoint+"/refused-request-changed-later-behaviour/"+kind, fmt.Sprintf("%s: the pool's later behaviour differs from a pool that never saw the refused request\n with    %s\n without %s", desc, got, want), nil)
 						}
@@ -185,7 +184,7 @@ func c06Unit(depth, shard, nshards int) vh.Unit {
 
 // c06Probe exercises the pool after the fact: who gets asked to whitelist a requesting client, what
 // closing the connection the refused request arrived on does, what the next keep-alive bills.
-func c06Probe(pw *vh.PoolWorld, cast *vh.Cast, now int64) string {
+func c06Probe(pw *vh.PoolWorld, cast *vh.Cast, now int64, honoured vh.Call) string {
 	var b strings.Builder
 	// (the virtual clock is global: both worlds are probed at the instant of the refused request)
 	vsched.ResetClock(time.Duration(now - vsched.Base().UnixNano()))
@@ -194,6 +193,9 @@ func c06Probe(pw *vh.PoolWorld, cast *vh.Cast, now int64) string {
 		resp, err := vh.NewCall("vipnode_peer", C2, now+n, pool.PeerRequest{Num: 3}).Invoke(pw, vh.CtxWith(pw.Host("probe").Service()))
 		fmt.Fprintf(&b, "%s: peers=%s err=%v calls=%s remotes=%d | ", tag, vh.ShortJSON(resp), err, pw.CallLog(), pw.Pool.NumRemotes())
 	}
+	// the victim's last honoured request, submitted again: still a replay
+	_, rerr := honoured.Invoke(pw, vh.CtxWith(pw.Host("x").Service()))
+	fmt.Fprintf(&b, "replay of the honoured %s refused=%v | ", honoured.Endpoint, vh.IsRefused(rerr))
 	pw.Store.SetNode(store.Node{ID: store.NodeID(C2.NodeID), Kind: "geth", LastSeen: vsched.Now()})
 	ask("peer", 2000)
 	err := pw.Pool.CloseRemote(pw.Host("attacker-conn").Service())
@@ -289,6 +291,75 @@ func c06Burst(n int) vh.Unit {
 	}}
 }
 
+// a replayed or stale request stays refused when the store hiccups while it is being checked: a
+// transient store failure at any one call may turn the refusal into an error, never into acceptance
+func c06RefusalUnderStoreFault() vh.Unit {
+	name := "refusal-under-store-fault"
+	cast := vh.StdCast()
+	return vh.Unit{Name: name, Run: func(u *vh.U) {
+		for _, endpoint := range vh.SignedEndpoints {
+			for _, kind := range []string{"replayed", "stale"} {
+				for failAt := 0; failAt < 6; failAt++ {
+					if u.Expired() {
+						return
+					}
+					victim := cast.ByName["C1"]
+					if endpoint == "vipnode_host" {
+						victim = cast.ByName["H1"]
+					}
+					if vh.IsWalletEndpoint(endpoint) {
+						victim = cast.ByName["W1"]
+					}
+					vsched.ResetClock(0)
+					var fs *vh.FaultStore
+					pw := vh.NewPoolWorld(vh.PoolConfig{Driver: vh.Memory, WrapStore: func(s store.Store) store.Store {
+						fs = vh.NewFaultStore(s)
+						return fs
+					}})
+					for _, e := range c06Session {
+						vh.PoolEvent(pw, cast, e)
+					}
+					now := vsched.Now().UnixNano()
+					param := vh.DefaultParam(endpoint, cast.ByName["H1"].NodeID)
+					honoured := vh.NewCall(endpoint, victim, now+200, param)
+					if _, err := honoured.Invoke(pw, vh.CtxWith(pw.Host("x").Service())); vh.IsRefused(err) {
+						u.Violate("c06/setup/valid-request-refused", fmt.Sprintf("%s by %s: %v", endpoint, victim.Name, err), nil)
+						continue
+					}
+					call := honoured // the same request again
+					if kind == "stale" {
+						call = vh.NewCall(endpoint, victim, now-int64(15*time.Minute)-1, param)
+					}
+					pw.Host("attacker-conn") // (exists before the digest is taken)
+					before := poolDigest(pw, cast) + nodeView(pw, victim)
+					settles := len(pw.Settles)
+					fs.FailAt = fs.N + failAt // the failAt-th store call made from now on fails, once
+					var err error
+					p := vh.Recover(func() { _, err = call.Invoke(pw, vh.CtxWith(pw.Host("attacker-conn").Service())) })
+					calls := fs.N
+					fs.FailAt = -1
+					after := poolDigest(pw, cast) + nodeView(pw, victim)
+					u.R.Evaluations++
+					u.R.States++
+					u.R.Transitions++
+					u.R.Traces++
+					u.Observe(fmt.Sprintf("%s %s fail@%d err=%v refused=%v", endpoint, kind, failAt, err != nil, vh.IsRefused(err)))
+					desc := fmt.Sprintf("%s (%s) by %s while store call #%d of the request fails once (%d store calls made)", endpoint, kind, victim.Name, failAt, calls)
+					switch {
+					case p != "":
+						u.Violate("c06/"+endpoint+"/panic/store-fault", desc+": panic: "+p, nil)
+					case err == nil:
+						u.Violate("c06/"+endpoint+"/not-refused/"+kind+"-under-store-fault", desc+": the request was honoured", nil)
+					case before != after || len(pw.Settles) != settles:
+						u.Violate("c06/"+endpoint+"/refused-request-left-trace/"+kind+"-under-store-fault", fmt.Sprintf("%s: err=%v, state changed\n before %s\n after  %s", desc, err, before, after), nil)
+					}
+				}
+			}
+		}
+		u.Sample("every endpoint x {replayed, stale} x the k-th store call of the request failing once, k = 0..5")
+	}}
+}
+
 func nodeView(pw *vh.PoolWorld, id *vh.Ident) string {
 	return "|" + vh.StoreView(pw.Raw, []string{id.NodeID}, []string{id.Wallet, id.NodeID})
 }
@@ -314,7 +385,7 @@ func init() {
 			if tier == "thorough" {
 				burst = 1500
 			}
-			us = append(us, c06Burst(burst))
+			us = append(us, c06Burst(burst), c06RefusalUnderStoreFault())
 			return us
 		},
 	})
